@@ -32,8 +32,12 @@ TYPED_EXPR = {"int": "1", "str": '"s"', "bytes": 'b"y"', "bool": "True", "float"
 
 
 def _union(r, k=None, pool=SCALARS):
+    """Members are spelled in one canonical (alphabetical) order everywhere: CPython's typing
+    module caches List[Union[int, str]] and hands the same object back for
+    List[Union[str, int]], so two programs spelling one member set in different orders would
+    communicate through that process-global cache - they would not be unrelated."""
     k = k or r.randint(2, min(5, len(pool)))
-    members = r.sample(pool, k)
+    members = sorted(r.sample(pool, k))
     return "Union[%s]" % ", ".join(members), members
 
 
@@ -375,6 +379,56 @@ def fam_callables(r, n):
         lines.append("    " + e)
     lines.append("")
     return lines
+
+
+def _union_sets(code):
+    """Union member sets (as {frozenset(member sources): first spelled order}) that occur nested
+    inside a subscript of the program - the shapes that go through typing's alias cache."""
+    import ast
+
+    out = {}
+    try:
+        tree = ast.parse(code)
+    except SyntaxError:
+        return out
+
+    def members(node):
+        if isinstance(node, ast.Subscript):
+            base = ast.unparse(node.value).split(".")[-1]
+            if base == "Union":
+                elts = node.slice.elts if isinstance(node.slice, ast.Tuple) else [node.slice]
+                return [ast.unparse(e) for e in elts]
+            if base == "Optional":
+                return [ast.unparse(node.slice), "None"]
+        if isinstance(node, ast.BinOp) and isinstance(node.op, ast.BitOr):
+            left = members(node.left) or [ast.unparse(node.left)]
+            right = members(node.right) or [ast.unparse(node.right)]
+            return left + right
+        return None
+
+    for node in ast.walk(tree):
+        if isinstance(node, ast.Subscript):
+            for inner in ast.walk(node.slice):
+                m = members(inner)
+                if m and len(set(m)) > 1:
+                    out.setdefault(frozenset(m), tuple(m))
+    return out
+
+
+def typing_cache_conflicts(programs_in_order):
+    """pids (later in the given order) that spell a nested union's member set in another order
+    than an earlier program: they would interact with it through typing's global cache."""
+    first = {}
+    dropped = set()
+    for pid, code in programs_in_order:
+        sets = _union_sets(code)
+        bad = any(k in first and first[k] != v for k, v in sets.items())
+        if bad:
+            dropped.add(pid)
+            continue
+        for k, v in sets.items():
+            first.setdefault(k, v)
+    return dropped
 
 
 FAMILIES = {
